@@ -3,6 +3,7 @@ package scen
 import (
 	"encoding/json"
 	"fmt"
+	"os"
 	"sort"
 	"strings"
 
@@ -11,6 +12,7 @@ import (
 
 	"tags.cncf.io/container-device-interface/pkg/cdi"
 	specs "tags.cncf.io/container-device-interface/specs-go"
+	"verif/sim/choice"
 	"verif/sim/memfs"
 	"verif/sim/sched"
 	"verifharness/core"
@@ -116,6 +118,14 @@ func (st *c14State) drawNode(i int, lowVersion bool) *specs.DeviceNode {
 	case 5: // uid/gid/fileMode
 		u := uint32(1000 + src.Intn(3))
 		dn.UID = &u
+		if src.Bool(1, 2) {
+			g := uint32(2000 + src.Intn(3))
+			dn.GID = &g
+		}
+		if src.Bool(1, 2) {
+			fm := os.FileMode([]uint32{0o600, 0o660, 0o666}[src.Intn(3)])
+			dn.FileMode = &fm
+		}
 	}
 	return dn
 }
@@ -195,6 +205,45 @@ func messy(src interface {
 	return p[:i] + "/x/.." + p[i:]
 }
 
+// richHook / richMount fill in the optional fields (slices and pointers that
+// an Apply could share with, or change inside, the cached Spec).
+func richHook(src *choice.Source, h *specs.Hook, tag string) *specs.Hook {
+	for k, n := 0, src.Intn(4); k < n; k++ {
+		h.Args = append(h.Args, fmt.Sprintf("--%s-arg%d", tag, k))
+	}
+	for k, n := 0, src.Intn(3); k < n; k++ {
+		h.Env = append(h.Env, fmt.Sprintf("HOOK_%d=%s", k, tag))
+	}
+	if src.Bool(1, 3) {
+		t := 1 + src.Intn(30)
+		h.Timeout = &t
+	}
+	return h
+}
+
+func richMount(src *choice.Source, m *specs.Mount, typed bool) *specs.Mount {
+	opts := []string{"ro", "nosuid", "nodev", "bind", "rprivate"}
+	for k, n := 0, src.Intn(4); k < n; k++ {
+		m.Options = append(m.Options, opts[src.Intn(len(opts))])
+	}
+	if typed && src.Bool(1, 3) {
+		m.Type = []string{"bind", "tmpfs"}[src.Intn(2)]
+	}
+	return m
+}
+
+// richEdits adds the v0.7.0 edits (additional GIDs, Intel RDT).
+func richEdits(src *choice.Source, e *specs.ContainerEdits, tag string) {
+	if src.Bool(1, 3) {
+		for k, n := 0, 1+src.Intn(3); k < n; k++ {
+			e.AdditionalGIDs = append(e.AdditionalGIDs, uint32(src.Intn(4))*1000+uint32(k)) // 0 (ignored) included
+		}
+	}
+	if src.Bool(1, 4) {
+		e.IntelRdt = &specs.IntelRdt{ClosID: "clos-" + tag, L3CacheSchema: "L3:0=ff", EnableCMT: src.Bool(1, 2)}
+	}
+}
+
 func cloneOCI(s *oci.Spec) *oci.Spec {
 	b, _ := json.Marshal(s)
 	var out oci.Spec
@@ -269,10 +318,17 @@ func c14(r *core.Run) {
 			s.ContainerEdits.Env = append(s.ContainerEdits.Env, fmt.Sprintf("SPEC%d_%d=f%d", i, k, i))
 		}
 		for k, n := 0, src.Intn(4); k < n; k++ {
-			s.ContainerEdits.Mounts = append(s.ContainerEdits.Mounts, &specs.Mount{HostPath: messy(src, fmt.Sprintf("/host/s%d_%d", i, k)), ContainerPath: messy(src, fmt.Sprintf("/ctr/s%d_%d", i, k))})
+			s.ContainerEdits.Mounts = append(s.ContainerEdits.Mounts, richMount(src, &specs.Mount{HostPath: messy(src, fmt.Sprintf("/host/s%d_%d", i, k)), ContainerPath: messy(src, fmt.Sprintf("/ctr/s%d_%d", i, k))}, version != "0.3.0"))
 		}
 		for k, n := 0, src.Intn(4); k < n; k++ {
-			s.ContainerEdits.Hooks = append(s.ContainerEdits.Hooks, &specs.Hook{HookName: "prestart", Path: messy(src, fmt.Sprintf("/bin/hook-s%d-%d", i, k))})
+			s.ContainerEdits.Hooks = append(s.ContainerEdits.Hooks, richHook(src, &specs.Hook{HookName: "prestart", Path: messy(src, fmt.Sprintf("/bin/hook-s%d-%d", i, k))}, fmt.Sprintf("s%d-%d", i, k)))
+		}
+		rich := version == "0.7.0" || version == "1.0.0"
+		if rich {
+			richEdits(src, &s.ContainerEdits, fmt.Sprintf("s%d", i))
+		}
+		if !low && src.Bool(1, 3) {
+			s.Annotations = map[string]string{"vendor.example/spec": fmt.Sprintf("f%d", i)}
 		}
 		nd := 1 + src.Intn(3)
 		for j := 0; j < nd; j++ {
@@ -282,10 +338,16 @@ func c14(r *core.Run) {
 				d.ContainerEdits.Env = append(d.ContainerEdits.Env, fmt.Sprintf("DEV%d_%d_%d=1", i, j, k))
 			}
 			if src.Bool(1, 3) {
-				d.ContainerEdits.Hooks = append(d.ContainerEdits.Hooks, &specs.Hook{HookName: "poststop", Path: messy(src, fmt.Sprintf("/bin/hook-d%d-%d", i, j))})
+				d.ContainerEdits.Hooks = append(d.ContainerEdits.Hooks, richHook(src, &specs.Hook{HookName: "poststop", Path: messy(src, fmt.Sprintf("/bin/hook-d%d-%d", i, j))}, fmt.Sprintf("d%d-%d", i, j)))
 			}
 			if src.Bool(1, 3) {
-				d.ContainerEdits.Mounts = append(d.ContainerEdits.Mounts, &specs.Mount{HostPath: messy(src, fmt.Sprintf("/host/d%d_%d", i, j)), ContainerPath: messy(src, fmt.Sprintf("/ctr/d%d_%d", i, j))})
+				d.ContainerEdits.Mounts = append(d.ContainerEdits.Mounts, richMount(src, &specs.Mount{HostPath: messy(src, fmt.Sprintf("/host/d%d_%d", i, j)), ContainerPath: messy(src, fmt.Sprintf("/ctr/d%d_%d", i, j))}, version != "0.3.0"))
+			}
+			if rich {
+				richEdits(src, &d.ContainerEdits, fmt.Sprintf("d%d-%d", i, j))
+			}
+			if !low && src.Bool(1, 4) {
+				d.Annotations = map[string]string{"vendor.example/device": fmt.Sprintf("f%d.dev%d", i, j)}
 			}
 			nn := src.Intn(3)
 			for k := 0; k < nn; k++ {
